@@ -452,4 +452,34 @@ NormalizeContract(e) ==
                  Fl("no_shared_formula_objects", e.shared = 0) \o
                  Fl("copy_belongs_to_target_environment", e.in_target), <<>>, -1)
 
+\* ------------------------------------------------------------------ C20
+DSH == INSTANCE DagShapes
+
+(* a recorded walk: kids = the DAG (children have smaller numbers), root, calls = the sequence of
+   nodes whose walk_* callback ran, K = allowed callbacks per node, order / full = whether the
+   walker computes children first / visits every reachable node *)
+WalkTraceContract(e) ==
+    LET n == Len(e.kids)
+        Cnt(m) == Cardinality({i \in 1..Len(e.calls) : e.calls[i] = m})
+        reach == DSH!Reach(e.kids, e.root)
+        over == {m \in 1..n : Cnt(m) > e.K}
+        First(m) == CHOOSE i \in 1..Len(e.calls) : e.calls[i] = m /\ \A j \in 1..(i - 1) : e.calls[j] # m
+        early == IF ~e.order THEN {}
+                 ELSE {m \in 1..n : Cnt(m) > 0 /\ \E j \in 1..Len(e.kids[m]) :
+                                       LET c == e.kids[m][j] IN Cnt(c) = 0 \/ First(c) > First(m)}
+        stray == {m \in 1..n : Cnt(m) > 0 /\ m \notin reach}
+        missed == IF ~e.full THEN {} ELSE {m \in reach : Cnt(m) = 0}
+    IN  IF e.res # "ok" THEN Verdict(<<"operation_failed">>, <<>>, -1)
+        ELSE Verdict(Fl("each_node_visited_at_most_K_times", over = {}) \o
+                     Fl("children_computed_before_parent", early = {}) \o
+                     Fl("only_reachable_nodes_visited", stray = {}) \o
+                     Fl("every_reachable_node_visited", missed = {}), <<>>,
+                     IF over # {} THEN CHOOSE m \in over : TRUE ELSE -1)
+
+(* a scaling run: nodes = distinct sub-formulas of the input, callbacks = callbacks that ran,
+   K = allowed callbacks per distinct node, res = "ok" or the exception class *)
+ScaleContract(e) ==
+    Verdict(Fl("succeeds_on_deep_or_shared_input", e.res = "ok") \o
+            Fl("work_linear_in_dag_size", e.res # "ok" \/ e.callbacks <= e.K * e.nodes + e.slack), <<>>, -1)
+
 =============================================================================
